@@ -173,9 +173,39 @@ pub fn child(line: &str) -> String {
     let handled = built.handled.clone();
     let mut client = Some(built.client);
     let mut out = vec![];
+    let mut first_got: Option<std::sync::Arc<cadence::StatsdClient>> = None;
     for step in t[5].split('%') {
         let f: Vec<&str> = step.split('|').collect();
         match f[0] {
+            // the two public read functions of the holder, on this thread (G, Q) or on a fresh one (GT, QT)
+            "G" | "GT" => {
+                let got = if f[0] == "G" {
+                    cadence_macros::get_global_default().ok()
+                } else {
+                    std::thread::spawn(|| cadence_macros::get_global_default().ok()).join().unwrap_or(None)
+                };
+                out.push(match got {
+                    None => "g0,~,~,~".to_string(),
+                    Some(a) => {
+                        let same = match &first_got {
+                            None => {
+                                first_got = Some(a.clone());
+                                true
+                            }
+                            Some(f0) => std::sync::Arc::ptr_eq(f0, &a),
+                        };
+                        (if same { "g1,~,~,~" } else { "g1!,~,~,~" }).to_string()
+                    }
+                });
+            }
+            "Q" | "QT" => {
+                let b = if f[0] == "Q" {
+                    cadence_macros::is_global_default_set()
+                } else {
+                    std::thread::spawn(cadence_macros::is_global_default_set).join().unwrap_or(false)
+                };
+                out.push((if b { "q1,~,~,~" } else { "q0,~,~,~" }).to_string());
+            }
             "S" => {
                 if let Some(c) = client.take() {
                     cadence_macros::set_global_default(c);
